@@ -100,7 +100,11 @@ pub fn instantiate(
     let pending_batch = Batch::new(
         1,
         Uint128::zero(),
-        env.block.time.seconds() + config.batch_period,
+        env.block
+            .time
+            .seconds()
+            .checked_add(config.batch_period)
+            .ok_or_else(|| StdError::generic_err("batch period is too large"))?,
     );
 
     // Set pending batch and batches
